@@ -526,7 +526,8 @@ class ApplyTemplates(Transformer_InPlace):
     def template_usage(self, c):
         name = c[0].name
         args = c[1:]
-        result_name = "%s{%s}" % (name, ",".join(a.name for a in args))
+        # An anonymous token may share its name with a named terminal, but only the anonymous one is filtered out
+        result_name = "%s{%s}" % (name, ",".join(a.name + ('~' if isinstance(a, Terminal) and a.filter_out else '') for a in args))
         if result_name not in self.created_templates:
             self.created_templates.add(result_name)
             (_n, params, tree, options) ,= (t for t in self.rule_defs if t[0] == name)
